@@ -335,6 +335,89 @@ def run(ck, facts):
                 ck.expect(body_empty, "R4", "macro::gen_bridge/destroy-template", "fn #destroy_ident(this: Box<#T>) {}", "the destroy template is no longer `(this: Box<T>) {}`: " + src[:200], C.loc(g, n.get("ln")))
     ck.expect(found, "R4", "macro::gen_bridge/destroy-template-present", "", "no destroy template with a Box<T> parameter found in gen_bridge", C.loc(g))
 
+    # ---- R3 (cont.) generated corpus: the wrapper closure the macro builds around a callback parameter captures the whole DiplomatCallback by value
+    #      (not its `data` / `run_callback` fields): the foreign destructor then runs when the closure is dropped, not when the extern fn returns
+    ncb = 0
+    for unit in (facts.ft, facts.example):
+        for f in unit.fn_list:
+            mir = f.get("mir")
+            if f.get("exp") != "diplomat::bridge" or not f.get("no_mangle") or not mir or "blocks" not in mir:
+                continue
+            cbs = [i + 1 for i, t in enumerate(f.get("inputs", [])) if re.match(r"^diplomat_runtime::callback::DiplomatCallback<", t)]
+            if not cbs:
+                continue
+            captured = set()
+            for b in mir["blocks"]:
+                for st in b["stmts"]:
+                    if st["k"] == "assign" and st["rv"]["k"] == "agg" and st["rv"].get("agg") == "closure":
+                        for o in st["rv"]["ops"]:
+                            pl = o.get("move")
+                            if pl and not pl.get("p"):
+                                captured.add(pl["l"])
+            for i in cbs:
+                ncb += 1
+                ck.expect(i in captured, "R3", "%s/callback-arg%d-owned-by-wrapper" % (f["path"].replace("diplomat_feature_tests::", "ft::").replace("diplomat_example::", "ex::"), i),
+                          "moved whole into the wrapper closure",
+                          "the DiplomatCallback parameter is not moved as a whole into the wrapper closure (only some of its fields are captured): it is dropped, and its foreign destructor runs, "
+                          "when the extern fn returns, while a stored closure keeps calling through the freed `data`", C.loc(f))
+    if ncb < 9:
+        ck.bad("R3", "callback-capture-floor", "only %d callback parameters found in the generated corpus (9 counted)" % ncb)
+
+    # ---- R6 union-arm discipline of DiplomatResult: every access of `value.ok` / `value.err` (read, borrow, drop in place, assignment) happens on the
+    #      edge of a test of the SAME object's `is_ok` that selects that arm (also in code added later: clone_from, map, as_mut, ...)
+    ck.rule("R6", "every access of a DiplomatResult's union arm (`value.ok` / `value.err`) in the runtime is dominated by the matching edge of a test of that same object's is_ok flag")
+
+    def places_in(node, out):
+        if isinstance(node, dict):
+            if "l" in node and isinstance(node.get("p"), list):
+                out.append(node)
+            for v_ in node.values():
+                places_in(v_, out)
+        elif isinstance(node, list):
+            for v_ in node:
+                places_in(v_, out)
+    n6 = 0
+    for f in rt.fn_list:
+        mir = f.get("mir")
+        if not mir or "blocks" not in mir:
+            continue
+        m = None
+        for b in mir["blocks"]:
+            if b.get("cleanup"):
+                continue
+            ps = []
+            places_in(b["stmts"], ps)
+            places_in(b["term"], ps)
+            for pl in ps:
+                pr = pl["p"]
+                arm = next((x for x in pr if x in (".ok", ".err")), None)
+                if not arm or ".value" not in pr or "DiplomatResult" not in mir["locals"][pl["l"]]["ty"]:
+                    continue
+                m = m or MirFn(f)
+                n6 += 1
+                base = C.sym_root(m.sym_place({"l": pl["l"], "p": pr[:pr.index(".value")]}))
+                # the switches on <base>.is_ok whose matching edge dominates this block
+                ok_guard = False
+                for sb, sblk in m.cfg.blocks.items():
+                    t = sblk["term"]
+                    if sblk.get("cleanup") or t["k"] != "switch":
+                        continue
+                    c = m.sym_op(t["discr"])
+                    fo = C.sym_field_of(c)
+                    if not fo or fo[1] != "is_ok" or fo[0] != base:
+                        continue
+                    for succ in m.cfg.succ[sb]:
+                        ev = m.edge_value(sb, succ)
+                        truthy = (ev == "otherwise" and all(v_ == 0 for v_, _ in t["targets"])) or (ev != "otherwise" and ev and all(v_ != 0 for v_ in ev))
+                        if truthy == (arm == ".ok") and m.cfg.pred.get(succ) == [sb] and m.cfg.dominates(succ, b["id"]):
+                            ok_guard = True
+                key = "%s/%s@bb%d" % (C.norm_path(f["path"]).replace("diplomat_runtime::", ""), arm[1:], b["id"])
+                ck.expect(ok_guard, "R6", key, "under %s.is_ok == %s" % (C.sym_show(base), arm == ".ok"),
+                          "the `%s` arm of the result union is accessed without a dominating test of the same object's is_ok selecting it (base %s): the live payload is read or dropped as the wrong type when the flags of two values differ"
+                          % (arm[1:], C.sym_show(base)), C.loc(f))
+    if n6 < 8:
+        ck.bad("R6", "floor", "only %d union-arm accesses found in the runtime (8 counted)" % n6)
+
     # ---- R5 C++ templates / generator strings
     import tmpl
     op = tmpl.flat_file("cpp/opaque_impl.h.jinja", resolve_includes=False)
